@@ -75,6 +75,8 @@ class RandInfoBuilder(ModelVisitor,RandIF):
         
         self._randset_m : Dict[RandSet,int] = {}
         self._randset_l = []
+        # Holds the statements that do not reference any field
+        self._nofield_randset = None
         self._randset_field_m : Dict[FieldModel,RandSet] = {} # map<field,randset>
         self._constraint_s : List[ConstraintModel] = []
         self._soft_priority = 0
@@ -109,6 +111,7 @@ class RandInfoBuilder(ModelVisitor,RandIF):
 
         builder._randset_m.clear()
         builder._randset_l.clear()
+        builder._nofield_randset = None
         builder._randset_field_m.clear()
 
         # Now, build the randset
@@ -207,9 +210,15 @@ class RandInfoBuilder(ModelVisitor,RandIF):
                 self._active_randset.add_constraint(c)
                 for s in self._active_order_randset_s:
                     s.add_constraint(c)
-            else:
-#                print("TODO: handle no-reference constraint: " + str(c_blk.name))
-                pass
+            elif not isinstance(c, (ConstraintSolveOrderModel, ConstraintSoftModel)):
+                # The statement references no field at all (only literals, 
+                # or an aggregate over an empty list). It must hold all the 
+                # same: keep it in a rand set of its own so it is checked
+                if self._nofield_randset is None:
+                    self._nofield_randset = RandSet()
+                    self._randset_m[self._nofield_randset] = len(self._randset_l)
+                    self._randset_l.append(self._nofield_randset)
+                self._nofield_randset.add_constraint(c)
         super().visit_constraint_stmt_leave(c)
         
     def visit_constraint_dynref(self, c):
